@@ -80,7 +80,7 @@ PUSH_DATA = fn(
                 assert(split_ok(multi_line_data@, start_line, start_col, end_line, end_col, typ, modifiers)) /*@C26.tokens.multiline-split*/;
             }'''),
         (r'\.push\(SemanticTokenData::MultiLine\(multi_line_data\)\);', 'after', LEGEND_PUSH_PROOF),
-        (r'length: end_col\.saturating_sub\(start_col\),\s*typ,\s*modifiers,\s*\}\)\);', 'after', LEGEND_PUSH_PROOF),
+        (r'length: [^;]*?,\s*typ,\s*modifiers,\s*\}\)\);', 'after', LEGEND_PUSH_PROOF),
     ],
 )
 
